@@ -32,6 +32,17 @@ func init() {
 
 func runC01(c *Ctx) {
 	c01RecordAll(c)
+	{
+		var pkgs []*packages.Package
+		for _, rel := range []string{"private/bufpkg/bufmodule", "private/bufpkg/bufimage"} {
+			if q := c.P.Pkg(rel); q != nil {
+				pkgs = append(pkgs, q)
+			}
+		}
+		ruleCopyCtorComplete(c, "COPY-COMPLETE", pkgs, 1)
+		c01KeyByFullName(c)
+		c01WarningsAllFiles(c)
+	}
 	p := c.P
 	c.Rule("R-POSTORDER", "closure walks mark before recursing and emit a file after all of its imports", 3)
 	c.Rule("RESORT", "compiled files are put back into target-path order before the walk", 2)
